@@ -2,7 +2,20 @@
 import re
 from core import Plugin, coq_eval_terms
 
-KINDS = {"C0": "KRaw", "C1": "KH1", "C2": "KH2", "C3": "KCut", "U": "KH1"}
+class _Kinds(dict):
+    """connect tokens; a token may carry ':<n>', the buffer size the client asks for (the model abstracts from it)"""
+    def __contains__(self, t):
+        return isinstance(t, str) and dict.__contains__(self, t.split(":")[0])
+
+    def __getitem__(self, t):
+        return dict.__getitem__(self, t.split(":")[0])
+
+
+KINDS = _Kinds({"C0": "KRaw", "C1": "KH1", "C2": "KH2", "C3": "KCut", "U": "KH1"})
+
+
+def base(tok):
+    return tok.split(":")[0]
 PROTO = {"h1": "PH1", "h2": "PH2", "auto": "PAuto"}
 
 FULL = ["R", "T", "T", "T"]          # one complete exchange on a connection
@@ -19,6 +32,8 @@ def ev_term(tok, transport):
         return "EMakeFail"
     if tok == "G":
         return "ESignal"
+    if re.fullmatch(r"K\d+", tok):
+        return f"EMakeSignal {tok[1:]}"
     if tok == "S":
         return "ESettle"
     m = re.fullmatch(r"(P|R|T|Fd|Fg|Fe)(\d+)", tok)
@@ -31,7 +46,8 @@ def ev_term(tok, transport):
 OBS = {"C": "OConnect", "B": "OBegin", "J": "OEnvDone", "F": "OFault", "A": "OAccept", "Sp": "OSpawn", "T": "OTold",
        "D": "ODone", "H": "OHandler", "V": "OResp", "N": "ORefused"}
 OBS0 = {"X": "OCancel", "L": "OLost", "M": "OMakeArm", "G": "OSignal", "E": "OAcceptErr", "Z+": "OServer true",
-        "Z-": "OServer false", "Q": "OQuiet"}
+        "Z-": "OServer false", "Z!": "OServer false",     # a panic of the serving future: it ended, and not with Ok
+        "Q": "OQuiet"}
 BROKEN = ["OServer false", "OTold 0", "OTold 0"]     # rejected by both monitors, equal to no model trace
 
 
@@ -61,9 +77,12 @@ class ServerPlugin(Plugin):
     cs_type = "list (case * obs)"
     mon_fn = None
 
-    # case = {"mode": "g"|"p", "proto": "h1"|"h2"|"auto", "tr": "duplex"|"dtls"|"tcp"|"unix", "evs": [tokens]}
+    # case = {"mode": "g"|"p", "proto": "h1"|"h2"|"auto", "tr": "duplex"|"dtls"|"tcp"|"unix", "evs": [tokens],
+    #         "cap": server-side per-connection buffer cap (duplex / dtls; optional)}
+    # cap and the ':<n>' suffix of connect tokens (requested buffer size) are variation the model abstracts from
     def impl_line(self, c):
-        return f"{c['mode']} {c['proto']} {c['tr']} {' '.join(c['evs'])}"
+        tr = c["tr"] + (f"@{c['cap']}" if c.get("cap") is not None else "")
+        return f"{c['mode']} {c['proto']} {tr} {' '.join(c['evs'])}"
 
     def parse_obs(self, c, line):
         return line.split()
@@ -93,6 +112,14 @@ class ServerPlugin(Plugin):
             d = dict(c)
             d["tr"] = "duplex"
             yield d
+        if c.get("cap") is not None:
+            d = dict(c)
+            d["cap"] = None
+            yield d
+        if any(":" in t for t in evs):
+            d = dict(c)
+            d["evs"] = [base(t) if t in KINDS else t for t in evs]
+            yield d
 
     def nontrivial_key(self, c, o):
         if any(t[0] in "RPF" for t in c["evs"]) or "X" in c["evs"]:
@@ -100,16 +127,23 @@ class ServerPlugin(Plugin):
         return None
 
     def histogram(self, cases, obss):
-        h = {"proto": {}, "transport": {}, "mode": {}, "connections": {}, "server_result": {}, "events": {}}
+        h = {"proto": {}, "transport": {}, "mode": {}, "connections": {}, "server_result": {}, "events": {},
+             "server_buf_cap": {}, "client_buf_request": {}}
         for c, o in zip(cases, obss):
             for k, key in (("proto", "proto"), ("transport", "tr"), ("mode", "mode")):
                 h[k][c[key]] = h[k].get(c[key], 0) + 1
             n = str(sum(1 for t in c["evs"] if t in KINDS))
             h["connections"][n] = h["connections"].get(n, 0) + 1
-            r = "Ok" if "Z+" in o else "Err" if "Z-" in o else "serving"
+            cap = str(c.get("cap"))
+            h["server_buf_cap"][cap] = h["server_buf_cap"].get(cap, 0) + 1
+            for t in c["evs"]:
+                if t in KINDS:
+                    b = t.split(":")[1] if ":" in t else "default"
+                    h["client_buf_request"][b] = h["client_buf_request"].get(b, 0) + 1
+            r = "Ok" if "Z+" in o else "Err" if "Z-" in o else "panic" if "Z!" in o else "serving"
             h["server_result"][r] = h["server_result"].get(r, 0) + 1
             for t in c["evs"]:
-                k = re.sub(r"\d+$", "", t) if t not in KINDS else t
+                k = re.sub(r"\d+$", "", t) if t not in KINDS else base(t)
                 h["events"][k] = h["events"].get(k, 0) + 1
         return h
 
